@@ -141,17 +141,35 @@ func c14Run(sc *C14Scenario) *c14Outcome {
 func c14GenScenario(r *rng) *C14Scenario {
 	sc := &C14Scenario{}
 	steps := 6 + r.intn(50)
-	sc.Prog = genProgram(r, genParams{Steps: steps, Metadata: r.chance(1, 3), BlockAddr: r.chance(1, 3), IllFormed: r.chance(1, 2), Literal: r.chance(1, 5)})
+	sc.Prog = genProgram(r, genParams{Steps: steps, Metadata: r.chance(1, 3), BlockAddr: r.chance(1, 3), IllFormed: r.chance(1, 2), Literal: r.chance(1, 5), Swarm: r.chance(1, 2), Burst: r.chance(1, 4)})
 	nobs := 1 + r.intn(12)
 	if r.chance(1, 8) {
 		nobs = 20 + r.intn(20)
+	}
+	// Swarm: half of the histories use only a random subset of the observer kinds.
+	var obsKinds []int
+	if r.chance(1, 2) {
+		for k := range obsNames {
+			if r.chance(1, 3) {
+				obsKinds = append(obsKinds, k)
+			}
+		}
 	}
 	for i := 0; i < nobs; i++ {
 		k := r.intn(len(obsNames))
 		if r.chance(2, 5) {
 			k = r.intn(4) // prints are what assigns IDs
 		}
-		sc.Observers = append(sc.Observers, Obs{K: k, A: r.intn(64), B: r.intn(64), C: r.intn(64)})
+		if len(obsKinds) > 0 {
+			k = obsKinds[r.intn(len(obsKinds))]
+		}
+		o := Obs{K: k, A: r.intn(64), B: r.intn(64), C: r.intn(64)}
+		if f := sc.Prog.Focus; len(f) == 3 && r.chance(1, 2) {
+			// aim at the instruction the burst of edits aims at, with an observer of
+			// instructions, operands or values
+			o = Obs{K: []int{4, 5, 6, 7, 8, 15, 12, 3}[r.intn(8)], A: f[0], B: f[1], C: f[2]}
+		}
+		sc.Observers = append(sc.Observers, o)
 	}
 	// Focused histories: a third of the runs aim every selector at the first one
 	// or two entities, so that observations and several different edits hit the
@@ -217,7 +235,7 @@ func c14Search() {
 			sum.Samples = append(sum.Samples, map[string]interface{}{"seed": fmt.Sprint(runSeed), "history": o.history})
 		}
 		if *flagSelf {
-			emit(outRec{T: "event", Seed: runSeed, Detail: fmt.Sprintf("idx=%d trace=%016x hist=%016x class=%s", idx, o.stats.TraceHash, hash64(o.history...), o.class)})
+			emit(outRec{T: "event", Seed: runSeed, Detail: fmt.Sprintf("idx=%d trace=%016x hist=%016x class=%s uncontrolled=%d", idx, o.stats.TraceHash, hash64(o.history...), o.class, o.stats.PermUncontrolled)})
 		}
 		if o.class != "" {
 			failures++
